@@ -385,22 +385,22 @@ theorem onSlot_wf {p p' : Pool α} {s : Nat} {ok : Container α → Bool} {f : C
 
 /-- **Every operation keeps every live object well-formed.** -/
 theorem wf_step_pool [Zero α] [One α] [Div α] [NatCast α] (p p' : Pool α) (op : Op α) (hp : PoolWF p)
-    (h : step p op = Outcome.ok p') : PoolWF p' := by
+    (hd : Disciplined p op) (h : step p op = Outcome.ok p') : PoolWF p' := by
   cases op with
-  | ctorDefault dst kind =>
+  | ctorDefault dst kind init =>
     simp only [step, Outcome.ok.injEq] at h
     subst h
-    exact poolWF_set hp (wf_ctorDefault kind)
-  | ctorDim dst kind k d =>
+    exact poolWF_set hp (wf_ctorDefault kind init)
+  | ctorDim dst kind k d init =>
     simp only [step] at h
     split_ifs at h with hk
     cases h
-    exact poolWF_set hp (wf_ctorDim kind k d hk)
-  | ctorLayout dst kind k l c q =>
+    exact poolWF_set hp (wf_ctorDim kind k d hk init)
+  | ctorLayout dst kind k l c q init =>
     simp only [step] at h
     split_ifs at h with hk
     cases h
-    exact poolWF_set hp (wf_ctorLayout kind k l c q hk)
+    exact poolWF_set hp (wf_ctorLayout kind k l c q hk init)
   | copy dst src =>
     simp only [step] at h
     split at h
@@ -418,11 +418,22 @@ theorem wf_step_pool [Zero α] [One α] [Div α] [NatCast α] (p p' : Pool α) (
     · cases h
   | resize s k l c =>
     simp only [step] at h
-    refine onSlot_wf hp ?_ h
-    intro x y hx hok hy
-    simp only [Bool.and_eq_true, bne_iff_ne, ne_eq, decide_eq_true_eq] at hok
-    cases hy
-    exact wf_resize x hx k l c hok.2 hok.1
+    have hd' : ∀ x, p s = some x → x.kind = Kind.gaussian → k = 1 := hd
+    unfold onSlot at h
+    split at h
+    · cases h
+    · next x hx =>
+      split_ifs at h with hok
+      simp only [decide_eq_true_eq] at hok
+      cases h
+      apply poolWF_set hp
+      by_cases hg : x.kind = Kind.gaussian
+      · have hk1 := hd' x hx hg
+        subst hk1
+        have : resize x 1 l c = gaussianResize x l c := by simp [resize, gaussianResize, hg]
+        rw [this]
+        exact wf_gaussianResize x (hp s x hx) l c hg
+      · exact wf_resize x (hp s x hx) k l c hok hg
   | gaussianResize s l c =>
     simp only [step] at h
     refine onSlot_wf hp ?_ h
@@ -441,11 +452,49 @@ theorem wf_step_pool [Zero α] [One α] [Div α] [NatCast α] (p p' : Pool α) (
       simp only [ha, Option.map_some, Option.some.injEq] at hy
       subst hy
       exact wf_augment x hx qr qc q y' b ha
+  | augmentSelf s i =>
+    simp only [step] at h
+    refine onSlot_wf hp ?_ h
+    intro x y hx _ hy
+    unfold augmentSelf at hy
+    split_ifs at hy
+    · cases ha : augmentO x x.cov.rows x.dimCovariance (fun r c => x.cov.get r (x.dimCovariance * i + c)) with
+      | none => simp [ha] at hy
+      | some yb =>
+        obtain ⟨y', b⟩ := yb
+        simp only [ha, Option.map_some, Option.some.injEq] at hy
+        subst hy
+        exact wf_augmentO x hx _ _ _ y' b ha
+    · simp at hy
+  | move dst src =>
+    simp only [step] at h
+    split at h
+    · next x hx =>
+      split_ifs at h
+      cases h
+      intro t y hy
+      simp only at hy
+      split_ifs at hy
+      exact poolWF_set hp (hp src x hx) t y hy
+    · cases h
+  | baseAssign dst src =>
+    simp only [step] at h
+    split at h
+    · next x r hx hr =>
+      cases h
+      apply poolWF_set hp
+      have hd' := (show ∀ x r, p dst = some x → p src = some r →
+        (x.kind = Kind.ps → x.state.rows = r.dim - r.dimNoise ∧ x.state.cols = r.components) ∧
+        (x.kind = Kind.gaussian → r.components = 1) from hd) x r hx hr
+      obtain ⟨hpos, hdcc, hdim, hdcov, hmr, hmc, hcr, hcc, hwr, hwc, _, _, _⟩ := hp src r hr
+      exact ⟨hpos, hdcc, hdim, hdcov, hmr, hmc, hcr, hcc, hwr, hwc, fun hk => (hd'.1 hk).1, fun hk => (hd'.1 hk).2,
+        fun hk => hd'.2 hk⟩
+    · cases h
   | concatAssign dst src =>
     simp only [step] at h
     split at h
     · next x r hx hr =>
-      split_ifs at h with hk hds hpos
+      split_ifs at h with hk
       split at h
       · next y hy =>
         cases h
@@ -479,15 +528,20 @@ theorem wf_step_pool [Zero α] [One α] [Div α] [NatCast α] (p p' : Pool α) (
     simp only [step] at h
     exact onSlot_wf hp (fun x y hx _ hy => wf_fill hx hy) h
 
-theorem wf_runFrom [Zero α] [One α] [Div α] [NatCast α] (ops : List (Op α)) (p : Pool α) (hp : PoolWF p) :
-    PoolWF (runFrom p ops).1 := by
+theorem wf_runFrom [Zero α] [One α] [Div α] [NatCast α] (ops : List (Op α)) (p : Pool α) (hp : PoolWF p)
+    (hd : DisciplinedFrom p ops) : PoolWF (runFrom p ops).1 := by
   induction ops generalizing p with
   | nil => exact hp
   | cons op ops ih =>
+    obtain ⟨hd1, hd2⟩ := hd
     simp only [runFrom]
     split
-    · next p' h => exact ih p' (wf_step_pool p p' op hp h)
-    · exact ih p hp
+    · next p' h =>
+      rw [h] at hd2
+      exact ih p' (wf_step_pool p p' op hp hd1 h) hd2
+    · next h =>
+      rw [h] at hd2
+      exact ih p hp hd2
     · exact hp
 
 /-! ### Accessor blocks -/
@@ -567,14 +621,17 @@ theorem writeState_get {x y : Container α} {i j : Nat} {v : α} (hy : writeStat
 
 /-- The slot an operation writes to. -/
 def Op.dst : Op α → Nat
-  | Op.ctorDefault d _ => d
-  | Op.ctorDim d _ _ _ => d
-  | Op.ctorLayout d _ _ _ _ _ => d
+  | Op.ctorDefault d _ _ => d
+  | Op.ctorDim d _ _ _ _ => d
+  | Op.ctorLayout d _ _ _ _ _ _ => d
   | Op.copy d _ => d
   | Op.slice d _ => d
   | Op.resize s _ _ _ => s
   | Op.gaussianResize s _ _ => s
   | Op.augment s _ _ _ => s
+  | Op.augmentSelf s _ => s
+  | Op.move d _ => d
+  | Op.baseAssign d _ => d
   | Op.concatAssign d _ => d
   | Op.concatPlus d _ _ => d
   | Op.writeMean s _ _ _ => s
@@ -596,9 +653,15 @@ theorem onSlot_frame {p p' : Pool α} {s : Nat} {ok : Container α → Bool} {f 
 /-- Copies are deep and operands are not modified: an operation leaves every slot other than its
     destination exactly as it was. -/
 theorem step_frame [Zero α] [One α] [Div α] [NatCast α] (p p' : Pool α) (op : Op α)
-    (h : step p op = Outcome.ok p') (t : Nat) (ht : t ≠ op.dst) : p' t = p t := by
+    (h : step p op = Outcome.ok p') (t : Nat) (ht : t ≠ op.dst) (hmv : ∀ d s, op = Op.move d s → t ≠ s) :
+    p' t = p t := by
   cases op <;> simp only [step, Op.dst] at h ht <;>
   first
+    | (next d s =>
+        have hts := hmv d s rfl
+        split at h
+        · split_ifs at h; cases h; simp [Pool.set, ht, hts]
+        · cases h)
     | exact onSlot_frame h t ht
     | (cases h; simp [Pool.set, ht])
     | (split_ifs at h; cases h; simp [Pool.set, ht])
